@@ -51,11 +51,20 @@ pub struct Cfg {
     pub max_real_runs: usize,
     /// combinations evaluated per region before giving up (reported as a cap)
     pub max_combinations: u64,
+    /// also start from a free region cell (neither pinned by a copy nor constrained by an active
+    /// lookup row) moved by +1, at most one per combination; with enough repairs this follows a
+    /// chain of cells each defined from the previous one (the skipped rounds of a permutation)
+    pub seed_free_cells: bool,
+    /// affine cells tried per repair step / states kept per repair depth
+    pub repair_branch: usize,
+    pub repair_beam: usize,
+    /// repairs only through cells that no gate of an earlier row reads (strictly forward chains)
+    pub forward_repairs_only: bool,
 }
 
 impl Default for Cfg {
     fn default() -> Self {
-        Cfg { max_rows: 3, max_repairs: 2, max_pow: 12, max_real_runs: 8, max_combinations: 3_000_000 }
+        Cfg { max_rows: 3, max_repairs: 2, max_pow: 12, max_real_runs: 8, max_combinations: 3_000_000, seed_free_cells: false, repair_branch: 8, repair_beam: 64, forward_repairs_only: false }
     }
 }
 
@@ -447,13 +456,22 @@ pub fn explore_subject<S: Subject>(case: &S, k: u32, region_ids: &[u32], cfg: &C
         }
         st.lookup_rows += lrows.len() as u64;
         st.moves += moves.iter().map(|m| m.len() as u64).sum::<u64>();
-        if lrows.is_empty() {
+        if lrows.is_empty() && !cfg.seed_free_cells {
             out.count("laws:region-without-lookup-rows", 1);
             continue;
         }
 
         // ---- gates active around the region
-        let gate_polys: Vec<(&str, &Expression<F>)> = cs.gates().iter().flat_map(|g| g.polynomials().iter().map(move |p| (g.name(), p))).collect();
+        // gates, and the constraints of the additive-selector ("trash") arguments: where the
+        // selector is 1 every constraint expression must vanish, which `selector * constraint = 0`
+        // states exactly for a 0/1 selector
+        let trash_polys: Vec<(String, Expression<F>)> = cs
+            .trashcans()
+            .iter()
+            .flat_map(|tc| tc.constraint_expressions().iter().map(move |c| (tc.name().to_string(), tc.selector().clone() * c.clone())))
+            .collect();
+        let mut gate_polys: Vec<(&str, &Expression<F>)> = cs.gates().iter().flat_map(|g| g.polynomials().iter().map(move |p| (g.name(), p))).collect();
+        gate_polys.extend(trash_polys.iter().map(|(n, p)| (n.as_str(), p)));
         // (gate polynomial, row) pairs whose value really depends on a region cell (the selector is
         // on and the cell is queried): only these can be broken or repaired by the search
         let mut sens_gates: Vec<(usize, usize)> = vec![];
@@ -484,6 +502,20 @@ pub fn explore_subject<S: Subject>(case: &S, k: u32, region_ids: &[u32], cfg: &C
             for &row in &rows {
                 if lk_info.adv_query.iter().flatten().any(|(c, rot)| cells.contains(&(*c, t.at(row, *rot)))) {
                     sens_lookups.push((li, row));
+                }
+            }
+        }
+        // the first (lowest) row of a sensitive gate that reads each region cell: a repair through
+        // a cell that an earlier row's gate also reads would push the inconsistency backwards
+        let mut first_reader: HashMap<Cell, usize> = HashMap::new();
+        for (gi, row) in &sens_gates {
+            for (col, rot) in advice_queries(gate_polys[*gi].1) {
+                let c = (col, t.at(*row, rot));
+                if cells.contains(&c) {
+                    let e = first_reader.entry(c).or_insert(*row);
+                    if *row < *e {
+                        *e = *row;
+                    }
                 }
             }
         }
@@ -552,6 +584,28 @@ pub fn explore_subject<S: Subject>(case: &S, k: u32, region_ids: &[u32], cfg: &C
                 }
             }
         }
+        // ---- seed moves: one free cell moved by +1 (all in one group: at most one per combination)
+        if cfg.seed_free_cells {
+            let mut free: Vec<Cell> = cells.iter().filter(|c| !pinned.contains(c) && !lookup_cells.contains(c)).copied().collect();
+            free.sort();
+            let mut seeds = vec![];
+            for c in free {
+                let mut probe = HashMap::new();
+                probe.insert(c, t.adv(c, &none) + F::ONE);
+                if sens_gates.iter().any(|(gi, row)| !t.eval(gate_polys[*gi].1, *row, &probe).is_zero_vartime()) {
+                    seeds.push(Move { row_id: lrows.len(), sets: vec![(c, t.adv(c, &none) + F::ONE)] });
+                }
+            }
+            out.counter("laws_seed_moves", seeds.len() as u64);
+            if !seeds.is_empty() {
+                lrows.push(LRow { lk: usize::MAX, row: rmin });
+                moves.push(seeds);
+            }
+        }
+        if lrows.is_empty() {
+            out.count("laws:region-without-moves", 1);
+            continue;
+        }
         let mv_vals: Vec<Vec<Vec<F>>> = moves
             .iter()
             .map(|ms| {
@@ -613,6 +667,7 @@ pub fn explore_subject<S: Subject>(case: &S, k: u32, region_ids: &[u32], cfg: &C
                     }
                 }
                 if !clash {
+                    let move_cells: HashSet<Cell> = ov.keys().copied().collect();
                     // repairs
                     let mut frontier: Vec<HashMap<Cell, F>> = vec![ov];
                     for depth in 0..=cfg.max_repairs {
@@ -632,12 +687,37 @@ pub fn explore_subject<S: Subject>(case: &S, k: u32, region_ids: &[u32], cfg: &C
                             if depth == cfg.max_repairs {
                                 continue;
                             }
-                            // repair the first violated gate through one affine region cell
-                            let (gi, row) = bad[0];
+                            // repair the earliest violated gate (by row) through one affine region
+                            // cell; later cells are tried first (a chain of cells each defined from
+                            // the previous one is followed forwards), at most `repair_branch` of them
+                            let (gi, row) = *bad.iter().min_by_key(|(gi, row)| (*row, *gi)).unwrap();
                             let p = gate_polys[gi].1;
-                            for (col, rot) in advice_queries(p) {
-                                let c = (col, t.at(row, rot));
-                                if !cells.contains(&c) || ov.contains_key(&c) || pinned.contains(&c) {
+                            let mut cand_cells: Vec<Cell> = advice_queries(p).into_iter().map(|(col, rot)| (col, t.at(row, rot))).collect();
+                            cand_cells.sort_by_key(|c| std::cmp::Reverse((c.1, c.0)));
+                            cand_cells.dedup();
+                            if std::env::var("LAWS_DEBUG3").is_ok() {
+                                eprintln!(
+                                    "LAWS3 depth {depth}: {} violated, earliest gate {:?} row {row}; candidates {:?} (in region {:?}, set {:?}, pinned {:?})",
+                                    bad.len(),
+                                    gate_polys[gi].0,
+                                    cand_cells,
+                                    cand_cells.iter().map(|c| cells.contains(c)).collect::<Vec<_>>(),
+                                    cand_cells.iter().map(|c| ov.contains_key(c)).collect::<Vec<_>>(),
+                                    cand_cells.iter().map(|c| pinned.contains(c)).collect::<Vec<_>>()
+                                );
+                            }
+                            let mut taken = 0usize;
+                            for c in cand_cells {
+                                if taken >= cfg.repair_branch {
+                                    break;
+                                }
+                                // (a cell set by an earlier repair may be repaired again: a later
+                                // change can disturb a gate that was settled first; the cells of
+                                // the moves themselves are never touched)
+                                if !cells.contains(&c) || move_cells.contains(&c) || pinned.contains(&c) {
+                                    continue;
+                                }
+                                if cfg.forward_repairs_only && first_reader.get(&c).map(|r| *r < row).unwrap_or(false) {
                                     continue;
                                 }
                                 let v0 = t.adv(c, &ov);
@@ -654,7 +734,12 @@ pub fn explore_subject<S: Subject>(case: &S, k: u32, region_ids: &[u32], cfg: &C
                                 let Some(inv) = Option::<F>::from(slope.invert()) else { continue };
                                 o1.insert(c, v0 - p0 * inv);
                                 next.push(o1);
+                                taken += 1;
                             }
+                        }
+                        next.truncate(cfg.repair_beam);
+                        if std::env::var("LAWS_DEBUG2").is_ok() && next.is_empty() {
+                            eprintln!("LAWS2 region #{rid}: combination {:?} died at repair depth {depth}", chosen.iter().map(|m| m.sets[0].0).collect::<Vec<_>>());
                         }
                         frontier = next;
                         if frontier.is_empty() {
